@@ -214,6 +214,7 @@ def string_groups():
             sfx = '.' + w + ('.empty' if fam else '')
 
             def g(name, props, harness, enforce, what, defs=(), srcs=None, **kw):
+                kw.setdefault('replay', harness in ('h_erase', 'h_resize0', 'h_resize', 'h_prep_insert', 'h_insert_str_n', 'h_insert_ch', 'h_insert', 'h_substr', 'h_at'))
                 G.append(Group('string.' + name + sfx, props, 'P', S, harness, enforce=enforce, sources=srcs or src, defines=d + list(defs),
                                what=what + ' [%s, %s]' % (w, 'empty string' if fam else 'string with storage'),
                                thorough_for=(['C16'] if w == 'wide' else []), **kw))
